@@ -74,3 +74,9 @@ Print Assumptions C08_src_pin_mod_load_driver.
 Print Assumptions C08_src_pin_operations_new.
 Print Assumptions C08_src_pin_parfile_copy_worker.
 Print Assumptions C08_src_pin_parblock_dispatch_worker.
+
+(* ---- more glue on this property's path, pinned token for token ---- *)
+From XcpPins Require Import Pin_operations_tree_walker.
+Theorem C08_src_pin_operations_tree_walker : pin_unchanged name_operations_tree_walker.
+Proof. exact pin_operations_tree_walker. Qed.
+Print Assumptions C08_src_pin_operations_tree_walker.
